@@ -49,7 +49,7 @@ theorem funsOK_succ {f : Nat} (ih : FunsOK f) : FunsOK (f + 1) := by
   refine ⟨?_, ?_, ?_, ?_, ?_, ?_, ?_, ?_⟩
   · -- evalE
     intro e c r h
-    cases e <;> simp only [evalE] at h
+    cases e <;> try simp only [evalE] at h
     case boolLit b => simp only [Option.some.injEq] at h; subst h; exact SameF.refl c
     case intLit n => split at h <;> simp at h; subst h; exact SameF.refl c
     case strLit s => split at h <;> simp at h; subst h; exact SameF.refl c
@@ -140,6 +140,98 @@ theorem funsOK_succ {f : Nat} (ih : FunsOK f) : FunsOK (f + 1) := by
         · simp at h
       · simp only [Option.some.injEq] at h; subst h; trivial
       · simp at h
+    case sliceNew dt vals =>
+      split at h
+      · rename_i os c1 ha
+        split at h
+        · split at h
+          · simp only [Option.some.injEq] at h; subst h
+            exact (ih.evalArgs vals c _ ha).trans ⟨rfl, rfl⟩
+          · simp at h
+        · simp at h
+      · simp only [Option.some.injEq] at h; subst h; trivial
+      · simp at h
+    case sliceEval value index dt =>
+      split at h
+      · rename_i a c1 hl
+        split at h
+        · rename_i b c2 hr
+          split at h
+          · split at h
+            · split at h
+              · simp only [Option.some.injEq] at h; subst h; exact two value index c a b c1 c2 hl hr
+              · simp at h
+            · simp at h
+          · simp at h
+        · simp only [Option.some.injEq] at h; subst h; trivial
+        · simp at h
+      · simp only [Option.some.injEq] at h; subst h; trivial
+      · simp at h
+    case len x =>
+      split at h
+      · rename_i a c1 hx
+        split at h
+        · split at h
+          · simp only [Option.some.injEq] at h; subst h; exact funs_unary ih hx
+          · simp at h
+        · split at h
+          · simp at h
+          · simp only [Option.some.injEq] at h; subst h; exact funs_unary ih hx
+        · simp at h
+      · simp only [Option.some.injEq] at h; subst h; trivial
+      · simp at h
+    case copy dst src =>
+      split at h
+      · rename_i a c1 hx
+        split at h
+        · split at h
+          · simp only [Option.some.injEq] at h; subst h
+            exact (funs_unary ih hx).trans ⟨rfl, rfl⟩
+          · simp at h
+        · simp at h
+      · simp only [Option.some.injEq] at h; subst h; trivial
+      · simp at h
+    case substr value start stop =>
+      cases stop with
+      | none =>
+        simp only [evalE] at h
+        split at h
+        · rename_i a c1 h1
+          split at h
+          · rename_i v c2 h2
+            split at h
+            · split at h
+              · split at h
+                · simp only [Option.some.injEq] at h; subst h; exact two start value c a v c1 c2 h1 h2
+                · simp at h
+              · simp at h
+            · simp at h
+          · simp only [Option.some.injEq] at h; subst h; trivial
+          · simp at h
+        · simp only [Option.some.injEq] at h; subst h; trivial
+        · simp at h
+      | some st =>
+        simp only [evalE] at h
+        split at h
+        · rename_i a c1 h1
+          split at h
+          · rename_i b c2 h2
+            split at h
+            · rename_i v c3 h3
+              split at h
+              · split at h
+                · split at h
+                  · simp only [Option.some.injEq] at h; subst h
+                    exact (two start st c a b c1 c2 h1 h2).trans (funs_unary ih h3)
+                  · simp at h
+                · simp at h
+              · simp at h
+            · simp only [Option.some.injEq] at h; subst h; trivial
+            · simp at h
+          · simp only [Option.some.injEq] at h; subst h; trivial
+          · simp at h
+        · simp only [Option.some.injEq] at h; subst h; trivial
+        · simp at h
     all_goals simp at h
   · -- evalArgs
     intro es c r h
@@ -313,6 +405,26 @@ theorem funsOK_succ {f : Nat} (ih : FunsOK f) : FunsOK (f + 1) := by
     case panic e =>
       split at h
       · split at h
+        · simp only [Option.some.injEq, Prod.mk.injEq] at h
+          exact absurd h.1.symm (hne _)
+        · simp at h
+      · simp only [Option.some.injEq, Prod.mk.injEq] at h
+        exact absurd h.1.symm (hne _)
+      · simp at h
+    case sliceAssign x index value =>
+      split at h
+      · rename_i a c1 h1
+        split at h
+        · rename_i b c2 h2
+          split at h
+          · split at h
+            · split at h
+              · simp only [Option.some.injEq, Prod.mk.injEq] at h
+                obtain ⟨_, rfl⟩ := h
+                exact (two index value c a b c1 c2 h1 h2).trans ⟨rfl, rfl⟩
+              · simp at h
+            · simp at h
+          · simp at h
         · simp only [Option.some.injEq, Prod.mk.injEq] at h
           exact absurd h.1.symm (hne _)
         · simp at h
